@@ -1,37 +1,43 @@
 #!/usr/bin/env python3
-# usage: seedtest.py <seed dir name under /tmp/seedwt> <property id> [check ids...]
+# usage: [SEEDWT=/tmp/seedwt3] [SEEDSUFFIX=-3] [SEEDPHASE=confirm|check|both] seedtest.py <seed dir name> <property id> [check ids...]
 # Confirms a seeded change (tests still pass, the demonstration fails with it and passes without it), stores it under /verif/seeded/<name>/,
 # runs the named checks against /repo with the change applied and restores /repo.
+# Phase "confirm" works only in the scratch worktree (several can run in parallel); phase "check" patches /repo (one at a time).
 import json, os, shutil, subprocess, sys, time
 name, pid = sys.argv[1], sys.argv[2]
 checks = sys.argv[3:] or [pid]
 wt = os.environ.get('SEEDWT', '/tmp/seedwt') + '/' + name
 name = name + os.environ.get('SEEDSUFFIX', '')           # e.g. C17 -> C17-2 for the second round
 out = '/verif/seeded/' + name
+PHASE = os.environ.get('SEEDPHASE', 'both')
 def sh(cmd, cwd=None, timeout=3000):
     p = subprocess.run(cmd, shell=True, cwd=cwd, capture_output=True, text=True, timeout=timeout)
     return p.returncode, (p.stdout + p.stderr)
 os.makedirs(out, exist_ok=True)
-for f in ('patch.diff', 'demo.cpp', 'notes.txt', 'demo_flags.txt'):
-    if os.path.exists(os.path.join(wt, 'seed_out', f)): shutil.copy(os.path.join(wt, 'seed_out', f), out)
-meta = {'name': name, 'breaks_property': pid, 'confirmed': {}}
-# make sure the worktree holds exactly the patch
-sh('git checkout -- include && git apply seed_out/patch.diff', cwd=wt)
-rc, o = sh('cmake -G Ninja -B _build -DBUILD_TESTS=ON -DCMAKE_BUILD_TYPE=RelWithDebInfo -DCMAKE_PREFIX_PATH=/root/miniconda >/dev/null && cmake --build _build 2>&1 | tail -2 && ctest --test-dir _build -j8 --timeout 900 2>&1 | tail -4', cwd=wt)
-meta['confirmed']['tests_with_change'] = '100% tests passed' in o
-fl = open(os.path.join(wt, 'seed_out', 'demo_flags.txt')).read().strip().replace('\n', ' ') if os.path.exists(os.path.join(wt, 'seed_out', 'demo_flags.txt')) else ''
-rc1, o1 = sh('g++ -std=c++14 %s -Iinclude seed_out/demo.cpp -o seed_out/demo_with && ./seed_out/demo_with' % fl, cwd=wt)
-meta['confirmed']['demo_with_change_exit'] = rc1
-sh('git checkout -- include', cwd=wt)
-rc2, o2 = sh('g++ -std=c++14 %s -Iinclude seed_out/demo.cpp -o seed_out/demo_without && ./seed_out/demo_without' % fl, cwd=wt)
-meta['confirmed']['demo_without_change_exit'] = rc2
-sh('git apply seed_out/patch.diff', cwd=wt)
-meta['confirmed']['demo_output_with_change'] = o1[-600:]
-ok = meta['confirmed']['tests_with_change'] and rc1 != 0 and rc2 == 0
-meta['confirmed']['ok'] = ok
-print('confirmed' if ok else 'NOT CONFIRMED', json.dumps(meta['confirmed'])[:400])
+cj = os.path.join(out, 'confirmed.json')
+if PHASE in ('confirm', 'both'):
+    for f in ('patch.diff', 'demo.cpp', 'notes.txt', 'demo_flags.txt'):
+        if os.path.exists(os.path.join(wt, 'seed_out', f)): shutil.copy(os.path.join(wt, 'seed_out', f), out)
+    conf = {}
+    sh('git checkout -- include && git apply seed_out/patch.diff', cwd=wt)          # the worktree holds exactly the patch
+    rc, o = sh('cmake -G Ninja -B _build -DBUILD_TESTS=ON -DCMAKE_BUILD_TYPE=RelWithDebInfo -DCMAKE_PREFIX_PATH=/root/miniconda >/dev/null && cmake --build _build 2>&1 | tail -2 && ctest --test-dir _build -j4 --timeout 900 2>&1 | tail -4', cwd=wt)
+    conf['tests_with_change'] = '100% tests passed' in o
+    fl = open(os.path.join(wt, 'seed_out', 'demo_flags.txt')).read().strip().replace('\n', ' ') if os.path.exists(os.path.join(wt, 'seed_out', 'demo_flags.txt')) else ''
+    rc1, o1 = sh('g++ -std=c++14 %s -Iinclude seed_out/demo.cpp -o seed_out/demo_with && ./seed_out/demo_with' % fl, cwd=wt)
+    conf['demo_with_change_exit'] = rc1
+    sh('git checkout -- include', cwd=wt)
+    rc2, o2 = sh('g++ -std=c++14 %s -Iinclude seed_out/demo.cpp -o seed_out/demo_without && ./seed_out/demo_without' % fl, cwd=wt)
+    conf['demo_without_change_exit'] = rc2
+    sh('git apply seed_out/patch.diff', cwd=wt)
+    conf['demo_output_with_change'] = o1[-600:]
+    conf['ok'] = bool(conf['tests_with_change'] and rc1 != 0 and rc2 == 0)
+    json.dump(conf, open(cj, 'w'), indent=1)
+    print(name, 'confirmed' if conf['ok'] else 'NOT CONFIRMED', json.dumps(conf)[:300])
+if PHASE == 'confirm': sys.exit(0)
+conf = json.load(open(cj))
+meta = {'name': name, 'breaks_property': pid, 'confirmed': conf}
 results = {}
-if ok:
+if conf['ok']:
     rc, o = sh('git -C /repo apply %s/patch.diff' % out)
     if rc != 0: print('patch does not apply to /repo:', o); sys.exit(1)
     try:
@@ -42,11 +48,12 @@ if ok:
             results[c] = {'exit': rc, 'summary': lines[-1] if lines else o[-300:], 'violations': [l for l in lines if l.startswith('VIOLATION')][:3], 'wall_s': round(time.time() - t0, 1)}
             rp = [l.split('replay=')[1].split()[0] for l in lines if l.startswith('VIOLATION')]
             if rp and os.path.exists(rp[0]):
-                r = json.load(open(rp[0])); results[c]['first_replay'] = {k: r.get(k) for k in ('kind', 'case', 'step', 'differs_at', 'abort')}
-            print(c, 'exit', rc, results[c]['summary'])
+                r = json.load(open(rp[0])); results[c]['first_replay'] = {k: r.get(k) for k in ('kind', 'case', 'step', 'differs_at', 'abort', 'configuration')}
+            print(name, c, 'exit', rc, results[c]['summary'])
     finally:
         sh('git -C /repo checkout -- .')
 meta['what_it_needs'] = open(os.path.join(out, 'notes.txt')).read() if os.path.exists(os.path.join(out, 'notes.txt')) else ''
 meta['what_i_ran'] = 'lib/seedtest.py %s %s %s : rebuilt and ran the 11 ctest binaries in a scratch worktree with the change; compiled and ran demo.cpp with and without it; git -C /repo apply patch.diff; ./check <id> --tier quick; git -C /repo checkout -- .' % (name, pid, ' '.join(checks))
 meta['check_results'] = results
 json.dump(meta, open(os.path.join(out, 'meta.json'), 'w'), indent=1)
+if os.path.exists(cj): os.remove(cj)
